@@ -581,12 +581,18 @@ def rule_tau_star(ctx):
     b = body_of(fx, "tau_star_rule")
     ev = sym.Eval(fx, inline_depth=0)
     v = ev.function(b, [P("$r"), P("$globals")])
-    want = ("match", ("call", "Head::predicate", (("place", "$r.head"),)),
-            (("Option::Some(_)", ("if", ("bin", "Gt", ("call", "Head::arity", (("place", "$r.head"),)), ("lit", 0)),
-                                  ("call", "tau_star::tau_star_fo_head_rule", (P("$r"), P("$globals"))),
-                                  ("call", "tau_star::tau_star_prop_head_rule", (P("$r"),)))),
-             ("Option::None", ("call", "tau_star::tau_star_constraint_rule", (P("$r"),)))))
-    ctx.add("DISPATCH", "tau_star_rule", reduce(v) == want, ctx.site(b),
+    # decided on a present / absent head predicate and on head arities 0, 1, 3 (match, if, guard clauses and `== 0` / `> 0` are the same to it)
+    from .. import comp as _comp, leaves as _lv
+    _comp.use(fx)
+    PRED_, AR_ = ("call", "Head::predicate", (("place", "$r.head"),)), ("call", "Head::arity", (("place", "$r.head"),))
+    FO_, PROP_, CONSTR_ = ("call", "tau_star::tau_star_fo_head_rule", (P("$r"), P("$globals"))), ("call", "tau_star::tau_star_prop_head_rule", (P("$r"),)), ("call", "tau_star::tau_star_constraint_rule", (P("$r"),))
+    got_d, want_d = {}, {}
+    for pk, pv in (("some", ("ctor", "Option::Some", (("0", P("$p")),))), ("none", ("ctor", "Option::None", ()))):
+        for n_ in (0, 1, 3):
+            got_d[(pk, n_)] = _comp.decide_literals(_comp.case_of_case(_lv.lift(_lv.replace(reduce(v), {PRED_: pv, AR_: ("lit", n_)}))))
+            want_d[(pk, n_)] = CONSTR_ if pk == "none" else (FO_ if n_ > 0 else PROP_)
+    want = want_d
+    ctx.add("DISPATCH", "tau_star_rule", got_d == want, ctx.site(b),
             "a rule whose head has a predicate goes to the first-order constructor iff the head arity is > 0, to the propositional one otherwise; a rule without head predicate is a constraint")
     # Head::predicate / arity / terms agree with the head kinds
     for meth, ref in (("predicate", {"Basic": "Some", "Choice": "Some", "Falsity": "None"}), ("terms", {"Basic": "Some", "Choice": "Some", "Falsity": "None"})):
